@@ -14,6 +14,7 @@ from vt.world import World, WSpec, Abort
 
 ID = 'C18'
 KINDS = ['enum']
+USES_KERNEL = True
 LEVEL = 'exploration'
 TECHNIQUE = ('bounded-exhaustive enumeration of signal/kill requests (addressing fields x daemon states) and of signal '
              'designations (every name in every spelling, numbers, one-edit near misses) on the real daemon under the '
